@@ -733,7 +733,6 @@ func (p *Prog) isObj(e ast.Expr, o types.Object) bool {
 	return ok && o != nil && p.ObjOf(id) == o
 }
 
-
 // isLoc: e denotes the storage location o — a local variable (by object) or a struct field (by field).
 func (p *Prog) isLoc(e ast.Expr, o types.Object) bool {
 	if o == nil {
@@ -846,7 +845,6 @@ func (p *Prog) checkTickFuncs(cc *Func) []*Func {
 	}
 	return out
 }
-
 
 // tickRoles: the check tick — the loop task(s) that contact the candidates, wherever the refactoring of the
 // day put them (a closure inside connectivityChecks, or a method it calls) — and the locations (locals or
